@@ -124,12 +124,25 @@ def do_session(env, coll, sess):
     env.nonblocking = timeout is not None
     env._refused = False
     try:
-        if sess["kind"] in ("W", "D"):
+        if sess["kind"] in ("W", "D", "M"):
             with coll.writing(timeout=timeout):
                 env.nonblocking = False
+                if sess["kind"] == "M":
+                    # a writing session that first looks at what is there: it reads the FIRST listed record
+                    # (not the last one in the file when there are several) and then stores new ones
+                    ks = sorted(coll.keys())
+                    e["listed"] = ks
+                    for k in ks[:1]:
+                        try:
+                            e["reads"][k] = coll[k]
+                        except Exception as ex:
+                            e["reads"][k] = ("EXC", type(ex).__name__)
                 for k, v in sess["puts"]:
                     if env.fault_here("body"):
                         raise schedx.InjectedFault("injected: body failed")
+                    if env.fault_here("poison"):
+                        # an item the backend can never write (text where bytes are required): every attempt fails
+                        coll[k + "-poison"] = "text, not bytes"
                     if sess["kind"] == "D":
                         try:
                             coll[k] = v
@@ -257,6 +270,8 @@ def mk_sessions(wid, kinds, seed):
             out.append({"kind": "D", "puts": [("dup", _val(wid, si, 2, seed))]})
         elif k == "R":
             out.append({"kind": "R"})
+        elif k == "M":
+            out.append({"kind": "M", "puts": [(f"w{wid}s{si}m", _val(wid, si, 3, seed))]})
     return out
 
 
@@ -277,6 +292,8 @@ def fault_context(spec):
         for s in w["sessions"]:
             if s.get("fault"):
                 return f"fault={s['fault'][0]}:buf={w['buf']}:in={s['kind']}"
+    if any(s["kind"] == "M" for w in spec for s in w["sessions"]):
+        return "sessions-that-read-before-writing"
     return "nofault"
 
 
@@ -324,7 +341,7 @@ def judge(bench: Bench, spec, x: schedx.Execution):
                 continue
             failed = e["exc"] is not None
             faulted = bool(spec[wid]["sessions"][si].get("fault")) and e["fault_fired"]
-            if faulted and spec[wid]["sessions"][si]["fault"][0] == "write":
+            if faulted and spec[wid]["sessions"][si]["fault"][0] in ("write", "poison"):
                 any_write_fault = True
             if failed and not faulted:
                 out.append((f"session-raised[{e['exc']}]", f"worker {wid} session {si} ({e['kind']}) raised {e['exc']}: {e.get('exc_msg')} although nothing was injected into it"))
@@ -416,9 +433,11 @@ def judge(bench: Bench, spec, x: schedx.Execution):
             sidx[wid] += 1
     for wid, log in enumerate(logs):
         for si, e in enumerate(log):
-            if e["kind"] != "R" or e["listed"] is None:
+            if e["kind"] not in ("R", "M") or e["listed"] is None:
                 continue
             for k in e["listed"]:
+                if k not in e["reads"]:
+                    continue
                 r = e["reads"].get(k)
                 if isinstance(r, (tuple, list)):
                     out.append(("reader-listed-key-unreadable", f"reader {wid}.{si}: listed key {k!r} raised {r[1]}"))
@@ -551,7 +570,7 @@ def plain_specs(ctx, nworkers, total_sessions, spellings, bufs):
     return specs
 
 
-FAULT_KINDS = ["body", "encoder", "write", "close", "open", "flush"]
+FAULT_KINDS = ["body", "encoder", "write", "close", "open", "flush", "poison"]
 
 
 def fault_specs(ctx, bufs_for_faulty):
@@ -562,7 +581,7 @@ def fault_specs(ctx, bufs_for_faulty):
             for after in ((), ("W",), ("R",)):
                 for other in (("W",), ("R",), ("W", "R")):
                     for fk in FAULT_KINDS:
-                        if faulty_kind == "R" and fk in ("encoder", "write", "flush"):
+                        if faulty_kind == "R" and fk in ("encoder", "write", "flush", "poison"):
                             continue
                         specs.append((buf, faulty_kind, after, other, fk))
     return specs
@@ -572,6 +591,10 @@ def build_fault_spec(ctx, fs, n):
     buf, faulty_kind, after, other, fk = fs
     s0 = mk_sessions(0, (faulty_kind,) + after, ctx.seed)
     s0[0]["fault"] = (fk, n)
+    if fk in ("write", "flush", "close") and "puts" in s0[0]:
+        # what a failed write leaves behind must not read as records: zero bytes are empty blocks with
+        # empty keys, and they are longer than anything a later session of this program writes
+        s0[0]["puts"] = [(k, bytes(400)) for k, _ in s0[0]["puts"]]
     return [
         {"spelling": "rel", "buf": buf, "ro": False, "sessions": s0},
         {"spelling": "sym", "buf": "dflt", "ro": all(k == "R" for k in other), "sessions": mk_sessions(1, other, ctx.seed)},
@@ -600,6 +623,19 @@ def cfg_route_specs(ctx, spellings):
                 {"spelling": spellings[w % len(spellings)], "buf": ["dflt", "large"][w], "ro": False, "cfg_route": routes[w], "sessions": mk_sessions(w, ks, ctx.seed)}
                 for w, ks in enumerate((k0, k1))
             ])
+    return specs
+
+
+def mixed_specs(ctx, spellings):
+    """writing sessions that read an earlier record before they store new ones"""
+    specs = []
+    for k0 in (("W", "M"), ("W", "M", "R")):
+        for k1 in (("W",), ("R",), ("M",), ("W", "M")):
+            for buf0 in ("dflt", "large"):
+                specs.append([
+                    {"spelling": spellings[0], "buf": buf0, "ro": False, "sessions": mk_sessions(0, k0, ctx.seed)},
+                    {"spelling": spellings[1 % len(spellings)], "buf": "dflt", "ro": False, "sessions": mk_sessions(1, k1, ctx.seed)},
+                ])
     return specs
 
 
@@ -772,7 +808,8 @@ def run(ctx):
         "(2..3 processes x 1..2 sessions from {writer of 2 records, writer of a shared duplicate key, reader}, long-lived handles, one "
         "path spelling and buffer size per process) is executed on real processes with the real fcntl lock; plus, for the fault family, "
         "one injected exception at every fault point (body, encoder, n-th file write, close, open, final flush that loses the buffered "
-        "bytes) of a session; a construction family in which the handles are created under the scheduler; a lifecycle family with "
+        "bytes, an item that can never be written) of a session, the faulted writes carrying zero-filled values; writing sessions that "
+        "read an earlier record before they store new ones; a construction family in which the handles are created under the scheduler; a lifecycle family with "
         "sessions that give up after a timeout and processes that exit normally (captured atexit hooks run under the scheduler) while "
         "others continue; a re-creation family in which another process creates the library anew (overwrite=True, header of another "
         "length) before, between or after the sessions of a long-lived handle; a configuration family in which the processes learn "
@@ -808,6 +845,7 @@ def run(ctx):
         ctx.pmap(part_plain, [(len(s), 2, [s]) for s in lsp], nproc=nproc)
         ctx.pmap(part_plain, [(2, 1, c) for c in chunks(recreate_specs(ctx, list(sp_q)), nproc)], nproc=nproc)
         ctx.pmap(part_plain, [(2, 2, c) for c in chunks(cfg_route_specs(ctx, list(sp_q)), 4)], nproc=nproc)
+        ctx.pmap(part_plain, [(2, 1, c) for c in chunks(mixed_specs(ctx, list(sp_q)), nproc)], nproc=nproc)
         model_family(ctx, 2, beh2, nproc)
         ctx.bound = {"processes": 2, "sessions_total": 4, "preemptions": bound, "fault_family_preemptions": 1, "faults_per_execution": 1, "path_spellings": list(sp_q) + ["rel+sym in the fault family"]}
     else:
@@ -823,6 +861,7 @@ def run(ctx):
         ctx.pmap(part_plain, [(len(s), 3, [s]) for s in lifecycle_specs(ctx, sp2)], nproc=nproc)
         ctx.pmap(part_plain, [(2, 2, c) for c in chunks(recreate_specs(ctx, sp2[:2]), nproc)], nproc=nproc)
         ctx.pmap(part_plain, [(2, 3, c) for c in chunks(cfg_route_specs(ctx, sp2[:2]), 6)], nproc=nproc)
+        ctx.pmap(part_plain, [(2, 2, c) for c in chunks(mixed_specs(ctx, sp2[:2]), nproc)], nproc=nproc)
         model_family(ctx, 2, beh2, nproc)
         model_family(ctx, 3, beh3, nproc)
         ctx.bound = {"processes": "2 (bound 3) and 3 (bound 2)", "sessions_total": "4 / 4", "fault_family_preemptions": 2, "faults_per_execution": 1, "path_spellings": sp2}
